@@ -31,6 +31,15 @@ def pSing (reg : Reg) : Problem ℚ :=
     rhs := #[1, 2, -2]
     reg := reg }
 
+/-- 4×4 levelling loop (defect 1, kernel (1,1,1,1), `‖kernel‖² = 4` so that the Gram–Schmidt pivot
+    has a rational square root): rows h2-h1, h3-h2, h4-h3, h1-h4 -/
+def pSing4 (reg : Reg) : Problem ℚ :=
+  { m := 4, n := 4
+    rows := #[#[(1, -1), (2, 1)], #[(2, -1), (3, 1)], #[(3, -1), (4, 1)], #[(1, 1), (4, -1)]]
+    cov := #[⟨4, 0, #[1, 1, 1, 1]⟩]
+    rhs := #[1, 2, 1, -3]
+    reg := reg }
+
 end Gama.Ls.Ex
 
 namespace Gama.Ls.Ex
